@@ -37,7 +37,8 @@ type c02ctx struct {
 	constOp    map[int64]*types.Func
 	srcToken   map[int64]token.Token // action -> source token (from ast())
 	tokenKind  map[int64]string      // binary | assign | incdec | unary
-	silent     bool                  // r1 only fills the maps
+	childIdx   map[*FuncInfo]func(ast.Expr) int
+	silent     bool // r1 only fills the maps
 	folderRule string
 }
 
@@ -577,13 +578,14 @@ func (x *c02ctx) childIndex(fi *FuncInfo) func(e ast.Expr) int {
 	return func(e ast.Expr) int { return ofExpr(e, 0) }
 }
 
-var childIdxCache = map[*FuncInfo]func(ast.Expr) int{}
-
 func (x *c02ctx) operandOrder(fi *FuncInfo, fl *ast.FuncLit, e *ast.BinaryExpr, act int64) {
-	ci, ok := childIdxCache[fi]
+	if x.childIdx == nil {
+		x.childIdx = map[*FuncInfo]func(ast.Expr) int{}
+	}
+	ci, ok := x.childIdx[fi]
 	if !ok {
 		ci = x.childIndex(fi)
-		childIdxCache[fi] = ci
+		x.childIdx[fi] = ci
 	}
 	l, rr := ci(e.X), ci(e.Y)
 	key := x.actName[act] + "/" + funcName(fi.Decl) + "/operand-order"
@@ -955,10 +957,13 @@ func (x *c02ctx) r3() {
 
 // childIndexOf returns the operand child an extractor call takes its argument from.
 func (x *c02ctx) childIndexOf(fi *FuncInfo, call *ast.CallExpr) int {
-	ci, ok := childIdxCache[fi]
+	if x.childIdx == nil {
+		x.childIdx = map[*FuncInfo]func(ast.Expr) int{}
+	}
+	ci, ok := x.childIdx[fi]
 	if !ok {
 		ci = x.childIndex(fi)
-		childIdxCache[fi] = ci
+		x.childIdx[fi] = ci
 	}
 	if len(call.Args) == 0 {
 		return -1
